@@ -19,11 +19,13 @@ import (
 	"fmt"
 	"math/rand"
 	"os"
+	"strings"
 	"sync"
 	"time"
 
 	"src.elv.sh/pkg/eval"
 	"src.elv.sh/pkg/eval/vals"
+	"src.elv.sh/pkg/eval/vars"
 	"src.elv.sh/pkg/parse"
 	"verif.local/harness/elv"
 	"verif.local/harness/lib"
@@ -128,6 +130,26 @@ func (w *evalerT) evalTexts(texts []string) []backVal {
 	return out
 }
 
+// builtinTexts runs `repr $x` and `pprint $x` on the real Evaler and returns their byte output
+// without the final newline.
+func (w *evalerT) builtinTexts(x any) ([2]string, error) {
+	var out [2]string
+	ns := eval.CombineNs(w.ev.Global(), eval.BuildNs().AddVar("x", vars.NewReadOnly(x)).Ns())
+	for i, code := range []string{"repr $x", "pprint $x"} {
+		port, collect, err := eval.CapturePort()
+		if err != nil {
+			return out, lib.Infra("%v", err)
+		}
+		err = w.ev.Eval(parse.Source{Name: "[verif]", Code: code}, eval.EvalCfg{Ports: []*eval.Port{nil, port, nil}, Global: ns})
+		_, bs := collect()
+		if err != nil {
+			return out, lib.Infra("%s failed: %v", code, err)
+		}
+		out[i] = strings.TrimSuffix(string(bs), "\n")
+	}
+	return out, nil
+}
+
 type backVal struct {
 	ok  bool
 	v   any
@@ -149,6 +171,14 @@ func runCase(c *lib.Ctx, ev *evalerT, ci caseIn) (caseRec, error) {
 		reals[hi] = real
 		texts = append(texts, vals.ReprPlain(real), vals.Repr(real, 0))
 	}
+	// one more run: the texts as the builtins `repr` and `pprint` print them (byte output)
+	bt, err := ev.builtinTexts(reals[0])
+	if err != nil {
+		return rec, err
+	}
+	hs = append(hs, "builtin:"+hs[0])
+	reals = append(reals, reals[0])
+	texts = append(texts, bt[0], bt[1])
 	backs := ev.evalTexts(texts)
 	c.AddEvals(2 * len(texts))
 	backIdx := map[string]int{}
@@ -215,7 +245,7 @@ func judge(c *lib.Ctx, name string, cases []caseIn, recs []caseRec) error {
 	if p := os.Getenv("C04_DUMP"); p != "" {
 		os.WriteFile(p, lib.NDJSON(recs), 0o644)
 	}
-	bad, err := lib.Judge(c, name, c.SpecDir("Repr"), "JudgeRepr", recs, 6, 12*time.Minute)
+	bad, err := lib.Judge(c, name, c.SpecDir("Repr"), "JudgeRepr", recs, 4, 12*time.Minute)
 	if err != nil {
 		return err
 	}
@@ -335,10 +365,20 @@ func run(c *lib.Ctx) error {
 		for _, t := range r.Tagged("SIZES") {
 			c.Set("model_value_sets", map[string]any{"VS": t[0], "partners": t[1], "transitivity_set": t[2]})
 		}
+		// design-level model of reprMap: entry order is a function of the contents unless two keys
+		// tie in rank and collide in hash (the candidate class replayed by the probes)
+		r2, err := c.TLC("MCReprOrder", lib.TLCRun{Dir: dir, Module: "MCReprOrder", Workers: 1, Timeout: 5 * time.Minute})
+		if err != nil {
+			mErr = err
+			return
+		}
+		if r2.ErrKind != "" {
+			mErr = lib.Infra("MCReprOrder: the characterisation of order dependence fails: %s\n%s", r2.Err, r2.ErrTrace)
+		}
 	}()
 
 	// ---- G: exhaustive families from TLC
-	fams := []int{0, 2, 3, 4, 5, 6}
+	fams := []string{"{0, 1, 2, 6}", "{3}", "{4, 5}"}
 	wide := "FALSE"
 	if c.Thorough() {
 		wide = "TRUE"
@@ -346,11 +386,11 @@ func run(c *lib.Ctx) error {
 	famCases := make([][]caseIn, len(fams))
 	var gErr error
 	var gmu sync.Mutex
-	lib.Parallel(len(fams), 5, func(i int) {
+	lib.Parallel(len(fams), 3, func(i int) {
 		f := fams[i]
-		name := fmt.Sprintf("MCReprGen-F%d", f)
+		name := "MCReprGen-F" + f
 		r, err := c.TLC(name, lib.TLCRun{Dir: dir, Module: "MCReprGen", Workers: 1, Timeout: 10 * time.Minute,
-			Files: map[string][]byte{"MCReprGen.cfg": []byte(fmt.Sprintf("CONSTANT Fam = %d\nCONSTANT Wide = "+wide+"\nINIT Init\nNEXT Next\nINVARIANT WellFormed\nINVARIANT Emit\n", f))}})
+			Files: map[string][]byte{"MCReprGen.cfg": []byte(fmt.Sprintf("CONSTANT Fams = %s\nCONSTANT Wide = "+wide+"\nINIT Init\nNEXT Next\nINVARIANT WellFormed\nINVARIANT Emit\n", f))}})
 		if err == nil && r.ErrKind != "" {
 			err = lib.Infra("%s: %s\n%s", name, r.Err, r.ErrTrace)
 		}
@@ -370,7 +410,7 @@ func run(c *lib.Ctx) error {
 					continue
 				}
 				seen[k] = true
-				out = append(out, caseIn{Src: fmt.Sprintf("F%d", f), V: e.V})
+				out = append(out, caseIn{Src: "F" + f, V: e.V})
 			}
 			if err == nil && int64(len(out)) != r.Distinct {
 				err = lib.Infra("%s: TLC reported %d values, received %d", name, r.Distinct, len(out))
@@ -394,7 +434,7 @@ func run(c *lib.Ctx) error {
 	}
 	perFam := map[string]int{}
 	for i, fc := range famCases {
-		perFam[fmt.Sprintf("F%d", fams[i])] = len(fc)
+		perFam["F"+fams[i]] = len(fc)
 		cases = append(cases, fc...)
 	}
 	nG := len(cases)
